@@ -310,7 +310,9 @@ func scalarReflectFromGo(schema *schema_j5pb.Field, value interface{}) (protoref
 		switch st.Float.Format {
 
 		case schema_j5pb.FloatField_FORMAT_FLOAT32:
-			if val > math.MaxFloat32 || val < -math.MaxFloat32 {
+			// the shortest decimal form of a float32 near the maximum parses
+			// to a float64 slightly above it: range-check after rounding
+			if f := float32(val); math.IsInf(float64(f), 0) && !math.IsInf(val, 0) {
 				return pv, fmt.Errorf("float64 value %v is out of range for float32", val)
 			}
 
